@@ -223,6 +223,22 @@ CLAIMED["C12"] = (
     "Coq proof (provider parity, guard over all providers, attach-idempotence) + differential correspondence + isolation pairs",
     "DESIGN.md 5 C12", "Multi-name boolean expressions whose names live on different resolution rounds (D19) are not generated.")
 
+CLAIMED["C17"] = (
+    "Theorems (Properties/C17.v): a clone taken at any idle point of a machine that has a state is the "
+    "original's configuration (state, call history, empty queue, free lock), rtc on or off; a machine with async "
+    "callbacks cloned before its activation keeps exactly one pending __initial__ trigger; the clone's registry "
+    "is the original's; hence after any history the clone answers every suffix of operations exactly as the "
+    "original.  " + ENG_TIE + "Here a history is run, the machine is cloned with copy.deepcopy or a pickle round "
+    "trip at a random point (also before any event, i.e. before activation of an async machine), and original "
+    "and clone are driven alternately with different suffixes: the original's trace is compared with the model of "
+    "prefix+suffixA (the clone's activity must not show), the clone's with prefix+clone+suffixB; directly "
+    "asserted: clone.model and listeners are new objects, rtc / allow_event_without_transition / state_field / "
+    "start_value / custom attributes survive, same engine kind.",
+    "Coq proof (clone = same configuration and registry, suffix equivalence) + differential correspondence with alternating suffixes",
+    "DESIGN.md 5 C17",
+    "Partial: physical non-sharing of Python objects is checked (identity tests, diverging suffixes), not "
+    "proved.  Two genuine defects repaired (fix: b431cc9, fix: b1b38e6).")
+
 PENDING_REASON = "check not built yet in this session (work in progress; see DESIGN.md 9 for the order of work)"
 
 ALL = [f"C{i:02d}" for i in range(1, 19)]
